@@ -307,6 +307,10 @@ SPECIAL = {
                                 "    subroutine sdi(self)\n      import :: sdt\n      class(sdt) :: self\n    end subroutine sdi\n  end interface\n"
                                 "  type, extends(sdt) :: sdc\n    integer :: sdv\n  end type sdc\n  type, extends(sdt) :: sdc2\n    integer :: sdw\n  contains\n    procedure :: sdother\n  end type sdc2\n"
                                 "contains\n  subroutine sdother(self)\n    class(sdc2) :: self\n  end subroutine sdother\nend module sdm\n",
+    # (preprocessed probe) entities whose names exist only through macro expansion: the expanded line is longer than the
+    # line the client has, columns taken from it lie outside the document
+    "pp_expanded_names": "#define COUNTER number_of_iterations_done_so_far\n#define DECL(n) integer :: n\nmodule spm\n  implicit none\n  integer :: COUNTER\n  DECL(spv)\ncontains\n"
+                         "  subroutine sps()\n    number_of_iterations_done_so_far = 1\n    COUNTER = 2\n    spv = COUNTER\n  end subroutine sps\nend module spm\n",
     # characters whose lower- or upper-case form has another length (U+0130 -> 2 code points, U+00DF -> "SS") in literals
     # and comments to the left of names: columns computed on a case-folded copy of the line are off
     "case_folding_length": "module scm\n  implicit none\n  character(len=9) :: sc1 = \"\u0130\u0130\u0130\u0130\u0130\u0130\", sc2\n"
@@ -319,7 +323,7 @@ SPECIAL = {
 def special_job(name, acc: Acc):
     text = SPECIAL[name]
     s = _server()
-    path = os.path.join(_S["root"], "zz_special_probe.f90")
+    path = os.path.join(_S["root"], "zz_special_probe" + (".F90" if name.startswith("pp_") else ".f90"))
     s.open(path)
     s.change(path, [{"text": text}])
     for ln, line in enumerate(text.split("\n")):
